@@ -4,6 +4,7 @@ import (
 	"encoding/json"
 	"fmt"
 	"io"
+	"regexp"
 )
 
 type C07Case struct {
@@ -222,6 +223,18 @@ func genC07(g *G, n int, out io.Writer, full bool) {
 		p := ProfileSpec{Atoms: []Atom{{Kind: "minCount", Path: PP("p0", false), Arg: i64p(1)}}, Validations: []Validation{{Name: "v", Class: NS + "T", Rule: Rule{Atom: ip(0)}}}}
 		p.Name = name
 		enc.Encode(C07Case{Op: "c07", Id: id, Kind: "name", Size: i, Profile: p.Render(), Data: "[]"})
+		id++
+	}
+	// texts the translator pastes into the module (validation name, message, listed values, pattern, profile name) holding one
+	// character of each class a string-quoting routine may treat specially: C0 controls with and without a short escape, DEL, C1,
+	// separators, the byte-order mark, non-characters, private use, astral printable and astral non-printable (tag characters)
+	for i, ch := range []string{"\a", "\b", "\v", "\f", "\x00", "\x1b", "\x7f", "\u0085", "\u009f", "\u00a0", "\u00ad", "\u2028", "\ufeff", "\ufffe", "\uffff",
+		"\ue000", "\U0001f600", "\U000e0062", "\U000f0000", "\U0010ffff", "\\", "\"", "`"} {
+		c := ch
+		p := ProfileSpec{Atoms: []Atom{{Kind: "in", Path: PP("p0", false), Vals: []string{"a" + c + "b", c}}, {Kind: "pattern", Path: PP("p1", false), Lit: "x" + regexp.QuoteMeta(c)}},
+			Validations: []Validation{{Name: "v" + c + "w", Class: NS + "T", Rule: Rule{And: []Rule{{Atom: ip(0)}, {Atom: ip(1)}}}, Message: "m " + c + " {{ex.p0}} " + c}}}
+		p.Name = "n" + c
+		enc.Encode(C07Case{Op: "c07", Id: id, Kind: "text", Size: i, Profile: p.Render(), Data: "[]"})
 		id++
 	}
 }
